@@ -105,6 +105,9 @@ pub fn on_call_end(w: &mut MWorld, ci: usize) {
     }
 }
 pub fn on_get_invoke(w: &mut MWorld, _opi: usize) {
+    if is(w, "C03") {
+        c03_on_invoke(w, _opi);
+    }
     let n = w
         .ops
         .iter()
@@ -126,6 +129,13 @@ pub fn on_get_return(w: &mut MWorld, opi: usize) {
             let d = format!("get() panicked: {msg}");
             let p = w.sc.profile.clone();
             w.violate(&p, "unexpected_panic", d);
+        }
+    }
+    if is(w, "C03") && !w.draining {
+        if let Some(v) = c03_on_return(w, opi) {
+            if w.pending_violation.is_none() {
+                w.pending_violation = Some(v);
+            }
         }
     }
     if is(w, "C04") {
@@ -367,7 +377,8 @@ pub fn quiescent(w: &mut MWorld, info: &SimInfo) -> Option<Violation> {
     }
     let wt = classify_gets(w);
     let closed = w.orc.closed_step.is_some();
-    if is(w, "C02") {
+    if is(w, "C02") || is(w, "C03") {
+        let pid = w.sc.profile.clone();
         if !closed && !w.orc.close_invoked {
             let free = w
                 .cur_max_size()
@@ -376,7 +387,7 @@ pub fn quiescent(w: &mut MWorld, info: &SimInfo) -> Option<Violation> {
             if !wt.waiting.is_empty() && free > 0 {
                 w.cnt.probe("stranded_waiter_detected");
                 return Some(crate::engine::violation(
-                    "C02",
+                    &pid,
                     "stranded_waiter",
                     format!(
                         "no task is runnable, {} caller(s) wait for a slot although {} slot(s) are free (max_size {}, {} checked out, {} gets in create/recycle)",
@@ -394,7 +405,7 @@ pub fn quiescent(w: &mut MWorld, info: &SimInfo) -> Option<Violation> {
         }
         if closed && !wt.waiting.is_empty() {
             return Some(crate::engine::violation(
-                "C02",
+                &pid,
                 "waiter_on_closed_pool",
                 format!("{} caller(s) still wait for a slot after close() returned", wt.waiting.len()),
             ));
@@ -1046,4 +1057,152 @@ pub fn c13_on_call(w: &mut MWorld, ci: usize) {
     } else {
         w.cnt.probe("metrics_checked_in_call");
     }
+}
+
+// ---- C03: abandoning get() at any suspension point is harmless ---------------------------
+
+fn c03(clause: &str, d: String) -> Option<Violation> {
+    Some(crate::engine::violation("C03", clause, d))
+}
+
+pub fn c03_on_invoke(w: &mut MWorld, opi: usize) {
+    if let Some(sn) = snapshot(w) {
+        if let Some(st) = status_of(w) {
+            w.ops[opi].snap0 = Some((sn.s, sn.idle, st));
+        }
+    }
+}
+
+fn abandon_mode(w: &MWorld, opi: usize) -> Option<(&'static str, String)> {
+    let op = &w.ops[opi];
+    let res = op.result.as_ref()?;
+    // the call that was in flight (or panicked) when the get was abandoned
+    let last = op
+        .calls
+        .iter()
+        .map(|c| &w.calls[*c])
+        .filter(|c| c.kind != CallKind::Detach)
+        .last();
+    let point = match last {
+        Some(c) if matches!(c.res, CallRes::Dropped | CallRes::Panic | CallRes::InFlight) => match c.kind {
+            CallKind::Create => "create".to_string(),
+            CallKind::Recycle => "recycle".to_string(),
+            CallKind::PostCreate(_) => "post_create".to_string(),
+            CallKind::PreRecycle(_) => "pre_recycle".to_string(),
+            CallKind::PostRecycle(_) => "post_recycle".to_string(),
+            _ => "other".to_string(),
+        },
+        _ => "wait".to_string(),
+    };
+    let mode = match res {
+        OpRes::Cancelled => "future_dropped",
+        OpRes::EnclosingTimeout => "enclosing_timeout",
+        OpRes::Panicked { injected: true, .. } => {
+            let in_call = last
+                .map(|c| {
+                    w.gates
+                        .iter()
+                        .any(|g| std::ptr::eq(&w.calls[g.call], c) && g.outcome.kind == OKind::PanicCall)
+                })
+                .unwrap_or(false);
+            let sync = last
+                .map(|c| match c.kind {
+                    CallKind::PostCreate(i) => !w.sc.pool.post_create[i as usize],
+                    CallKind::PreRecycle(i) => !w.sc.pool.pre_recycle[i as usize],
+                    CallKind::PostRecycle(i) => !w.sc.pool.post_recycle[i as usize],
+                    _ => false,
+                })
+                .unwrap_or(false);
+            if in_call || sync {
+                "call_panics"
+            } else {
+                "awaited_future_panics"
+            }
+        }
+        _ => return None,
+    };
+    Some((mode, point))
+}
+
+pub fn c03_on_return(w: &mut MWorld, opi: usize) -> Option<Violation> {
+    let (mode, point) = abandon_mode(w, opi)?;
+    w.cnt.probe(&format!("abandon[{point}][{mode}]"));
+    let op = w.ops[opi].clone();
+    // D: objects the call had taken out of the pool or created
+    let mut d: Vec<u32> = Vec::new();
+    for c in &op.calls {
+        if let Some(o) = w.calls[*c].obj {
+            if !d.contains(&o) {
+                d.push(o);
+            }
+        }
+    }
+    for (id, o) in w.objs.iter().enumerate() {
+        if o.created_by_op == Some(opi) && !d.contains(&(id as u32)) {
+            d.push(id as u32);
+        }
+    }
+    for id in &d {
+        let o = &w.objs[*id as usize];
+        if o.destroyed.is_none() {
+            return c03(
+                "object_in_hand_discarded",
+                format!("get abandoned at {point} ({mode}): object #{id} it had in hand still exists"),
+            );
+        }
+        if o.detach_steps.len() != 1 {
+            return c03(
+                "object_in_hand_detached_once",
+                format!("get abandoned at {point} ({mode}): object #{id} was detached {} times", o.detach_steps.len()),
+            );
+        }
+    }
+    // differential part: only if no operation of another actor overlapped the call
+    let now = engine::current_step();
+    let overlapped = w.ops.iter().any(|o| {
+        o.actor != op.actor
+            && o.actor != CONTROLLER
+            && o.invoke_step <= now
+            && o.return_step.unwrap_or(u64::MAX) >= op.invoke_step
+    });
+    if overlapped {
+        return None;
+    }
+    let (s0, idle0, st0) = op.snap0.clone()?;
+    let sn = snapshot(w)?;
+    let st1 = status_of(w)?;
+    w.cnt.probe("abandon_differential_checked");
+    let lost: Vec<u32> = idle0.iter().copied().filter(|i| d.contains(i)).collect();
+    let exp_idle: Vec<u32> = idle0.iter().copied().filter(|i| !d.contains(i)).collect();
+    let mk = |clause: &str, what: String| {
+        c03(
+            clause,
+            format!("get abandoned at {point} ({mode}) with nothing else running: {what}"),
+        )
+    };
+    if sn.s.permits != s0.permits {
+        return mk("slot_released", format!("semaphore permits {} before, {} after", s0.permits, sn.s.permits));
+    }
+    if sn.s.users != s0.users {
+        return mk("users_restored", format!("users counter {} before, {} after", s0.users, sn.s.users));
+    }
+    if sn.s.size != s0.size - lost.len() {
+        return mk(
+            "size_reduced_by_discarded",
+            format!("size {} before, {} after, {} idle object(s) discarded by the call", s0.size, sn.s.size, lost.len()),
+        );
+    }
+    if sn.idle != exp_idle {
+        return mk("idle_queue_unchanged", format!("idle queue {:?} before, {:?} after, discarded {:?}", idle0, sn.idle, lost));
+    }
+    let exp = StatusV {
+        max_size: st0.max_size,
+        size: st0.size - lost.len(),
+        available: st0.available - lost.len().min(st0.available),
+        waiting: st0.waiting,
+    };
+    if st1 != exp {
+        return mk("status_restored", format!("status() {:?} before, {:?} after, expected {:?}", st0, st1, exp));
+    }
+    None
 }
